@@ -204,6 +204,7 @@ pub fn heap_audit(rt: &RuntimeData) -> Result<AuditStats, String> {
         push_val(v, format!("value stack slot {i}"), &mut work);
     }
     for (i, v) in rt.global_vars.iter().enumerate() {
+        let Some(v) = v else { continue };
         push_val(*v, format!("global {i}"), &mut work);
     }
     for o in rt.object_list.iter() {
@@ -376,7 +377,7 @@ pub fn dump_heap(rt: &RuntimeData) -> HeapDump {
     for v in rt.value_stack.iter() {
         d.roots.extend(addr_of(&v));
     }
-    for v in rt.global_vars.iter() {
+    for v in rt.global_vars.iter().flatten() {
         d.roots.extend(addr_of(v));
     }
     for f in rt.call_stack.iter() {
